@@ -53,7 +53,8 @@ Print Assumptions C09_seven_decorators.
    the package is inside env_var_logic.py, an import of the names, a read of another
    (caller-named) variable, a use of a decorator inside one of the exact-shape shortcuts, or one of
    exactly two guards, which are the first statement of pedantic.decorator and of
-   for_all_methods.decorate; hence no wrapper reads the switch when it is called *)
+   for_all_methods.decorate; hence no wrapper reads the switch when it is called and no
+   factory (pedantic(...), for_all_methods(...)) reads it when the decorator object is created *)
 Theorem C09_cross_reference :
   forallb ref_allowed Gen.Env.env_refs = true /\
   map (fun r => (er_scope r, er_phase r)) (filter is_guard_ref Gen.Env.env_refs) =
@@ -61,10 +62,10 @@ Theorem C09_cross_reference :
   filter (fun r => reads_switch (er_kind r) && negb (is_guard_ref r) &&
                    match er_phase r with PhEnvLogic => false | _ => true end &&
                    match er_kind r with RDecoUse => negb (er_guard r) | _ => true end) Gen.Env.env_refs = [] /\
-  forall d, call_reads M d = false.
+  (forall d, call_reads M d = false) /\ (forall d, create_reads M d = false).
 Proof.
   split; [vm_compute; reflexivity|]. split; [vm_compute; reflexivity|]. split; [vm_compute; reflexivity|].
-  exact (no_call_reads M C09_model_good).
+  split; [exact (no_call_reads M C09_model_good)|exact (no_create_reads M C09_model_good)].
 Qed.
 Print Assumptions C09_cross_reference.
 
@@ -80,9 +81,9 @@ Theorem C09_identity_iff_disabled : forall d x s, in_domain (env s) = true ->
                     forall e, call_behaviour M (Wrapped d x) e = Checked).
 Proof.
   intros d x s Hd. rewrite (decorate_obs M C09_model_good s d x Hd).
-  assert (Hn : forall o, nth_error (objs s ++ [o]) (List.length (objs s)) = Some o).
-  { intro o. rewrite nth_error_app2, Nat.sub_diag by auto. reflexivity. }
-  apply in_domain_cases in Hd. destruct Hd as [H|[H|[H|[]]]]; rewrite <- H; cbn [spec_enabled String.eqb Ascii.eqb Bool.eqb objs env];
+  assert (Hn : forall o, nth_error (objs s ++ [o]) (List.length (objs s)) = Some o) by (intro o; apply nth_last).
+  apply in_domain_cases in Hd. destruct Hd as [H|[H|[H|[]]]]; rewrite <- H;
+    cbn [spec_enabled String.eqb Ascii.eqb Bool.eqb add_obj objs env];
     repeat split; intros;
     try match goal with D : _ \/ _ |- _ => destruct D end;
     try discriminate; try reflexivity; auto; try apply Hn;
@@ -126,9 +127,25 @@ Theorem C09_behaviour_fixed_at_decoration : forall s d x h, in_domain (env s) = 
 Proof. exact (behaviour_fixed M C09_model_good). Qed.
 Print Assumptions C09_behaviour_fixed_at_decoration.
 
-(* all observations of every in-domain history are the ones the statement demands *)
+(* "read only when a decorator is APPLIED": obtain a decorator object (for_all_methods(inner), pedantic(),
+   pedantic_require_docstring(), or a reference to a class decorator) in ANY state, let ANY finite history pass (toggles to
+   arbitrary values, other creations, decorations, calls), apply it to a fresh target while the variable is unset/"0"/"1":
+   the result is the very object iff the variable is "0" at the moment of APPLICATION, whatever it was at creation, and
+   under ANY further history the decorated object is checked iff the variable was unset/"1" at application *)
+Theorem C09_read_at_application_not_creation : forall s d h x h',
+  let s1 := fst (step M s (OCreate d)) in
+  let k := List.length (decos s) in
+  let s2 := fst (run_ops M s1 h) in
+  in_domain (env s2) = true ->
+  snd (step M s2 (OApply k x)) = ODeco (negb (spec_enabled (env s2))) /\
+  snd (step M (fst (run_ops M (fst (step M s2 (OApply k x))) h')) (OCall (List.length (objs s2)))) =
+    OCalled (if spec_enabled (env s2) then Checked else Plain).
+Proof. exact (read_at_application M C09_model_good). Qed.
+Print Assumptions C09_read_at_application_not_creation.
+
+(* all observations of every in-domain history (create/apply included) are the ones the statement demands *)
 Theorem C09_model_refines_spec : forall e h, in_domain e = true -> forallb op_in_domain h = true ->
-  snd (run_ops M {| env := e; objs := [] |} h) = snd (spec_run {| s_env := e; s_objs := [] |} h).
+  snd (run_ops M {| env := e; objs := []; decos := [] |} h) = snd (spec_run {| s_env := e; s_objs := []; s_decos := 0 |} h).
 Proof.
   intros e h He Hh. apply (run_refines M C09_model_good); [|exact Hh]. repeat split; auto.
 Qed.
@@ -150,14 +167,24 @@ Print Assumptions C09_enable_disable_roundtrip.
 Example C09_example :
   let h := [ODisable; ODecorate DPedantic 0; OEnable; OCall 0; ODecorate DTraceClass 1; ODisable; OCall 1; OCall 0] in
   forallb op_in_domain h = true /\
-  snd (run_ops M {| env := Unset; objs := [] |} h) =
+  snd (run_ops M {| env := Unset; objs := []; decos := [] |} h) =
     [ONone; ODeco true; ONone; OCalled Plain; ODeco false; ONone; OCalled Checked; OCalled Plain].
+Proof. split; vm_compute; reflexivity. Qed.
+
+(* created while enabled, applied while disabled: the very object; created while disabled, applied while enabled: checked *)
+Example C09_example_create_apply :
+  let h := [OEnable; OCreate DForAllMethods; ODisable; OCreate DPedantic; OApply 0 0; OCall 0; OEnable; OApply 1 1; OApply 0 2;
+            ODisable; OCall 1; OCall 2; OCall 0; OApply 7 0] in
+  forallb op_in_domain h = true /\
+  snd (run_ops M {| env := Unset; objs := []; decos := [] |} h) =
+    [ONone; ONone; ONone; ONone; ODeco true; OCalled Plain; ONone; ODeco false; ODeco false;
+     ONone; OCalled Checked; OCalled Checked; OCalled Plain; ONone].
 Proof. split; vm_compute; reflexivity. Qed.
 
 (* the hypotheses in_domain / op_in_domain are satisfiable by every value of the stated domain and by every operation
    that stays in it; other values are outside the statement (nothing is demanded of them here) *)
 Example C09_domain :
   map in_domain [Unset; Val "0"; Val "1"; Val "true"; Val ""]%string = [true; true; true; false; false] /\
-  map op_in_domain [OSetenv "0"; OSetenv "1"; OUnsetenv; OEnable; ODisable; ODecorate DForAllMethods 0; OCall 3; OSetenv "2"]%string
-    = [true; true; true; true; true; true; true; false].
+  map op_in_domain [OSetenv "0"; OSetenv "1"; OUnsetenv; OEnable; ODisable; ODecorate DForAllMethods 0; OCall 3; OCreate DTimerClass; OApply 0 0; OSetenv "2"]%string
+    = [true; true; true; true; true; true; true; true; true; false].
 Proof. split; vm_compute; reflexivity. Qed.
